@@ -444,6 +444,8 @@ fn run_checked(history: &[Argv], op: &Argv) -> Result<String, (String, String)> 
     Ok(sys.model.fingerprint())
 }
 
+vh::use_jemalloc!();
+
 fn main() {
     let args = cli::parse_args();
     vh::quiet_panics();
